@@ -81,6 +81,21 @@ fn gen_batch(max: usize, next_seq: &mut u32, mentioned: &BTreeSet<u32>) -> (Vec<
   }
   .min(max)
   .max(1);
+  if ctx::chance(1, 1500) {
+    // several hundred thousand scattered indices: the serialised bitmap exceeds a megabyte
+    ctx::stat("probe.huge_sparse_batch");
+    let mut x: u64 = ((ctx::draw_u32() as u64) << 32) | ctx::draw_u32() as u64 | 1;
+    let n = 280_000 + ctx::choose(60_000);
+    let v: Vec<u32> = (0..n)
+      .map(|_| {
+        x ^= x << 13;
+        x ^= x >> 7;
+        x ^= x << 17;
+        (x >> 16) as u32
+      })
+      .collect();
+    return (v, "huge-sparse");
+  }
   if ctx::choose(14) == 0 {
     // a long consecutive run: a dense set whose serialised form is large but compresses extremely well
     ctx::stat("probe.dense_run");
